@@ -106,10 +106,10 @@ func (e *Explorer) runOne(br branch, keepTrace bool, follow bool) *Sched {
 			e.States++
 		}
 		e.visited[key] = int16(pre)
-		runningEnabled := s.running != nil && alts[0].T == s.running
+		mainEnabled := s.main != nil && alts[0].T == s.main
 		for c := len(alts) - 1; c >= 1; c-- {
 			cost := pre
-			if runningEnabled && alts[c].T != s.running {
+			if mainEnabled && alts[c].T != s.main && !alts[c].T.Free {
 				cost++
 			}
 			if e.Bound >= 0 && cost > e.Bound {
